@@ -148,15 +148,17 @@ func FuncName(f *ssa.Function) string {
 	if f == nil {
 		return "<nil>"
 	}
+	if f.Pkg == nil && (f.Parent() == nil || f.Parent().Pkg == nil) {
+		return f.String() // synthetic wrapper (bound method, thunk) of another package
+	}
 	if f.Parent() != nil {
 		// closure: name already "outer$k"
 		return strings.TrimPrefix(closureName(f), PkgPath+".")
 	}
-	s := f.RelString(f.Package().Pkg)
-	if f.Pkg == nil {
-		s = f.String()
+	if f.Package() == nil {
+		return f.String()
 	}
-	return s
+	return f.RelString(f.Package().Pkg)
 }
 
 func closureName(f *ssa.Function) string {
@@ -164,6 +166,9 @@ func closureName(f *ssa.Function) string {
 	top := f
 	for top.Parent() != nil {
 		top = top.Parent()
+	}
+	if top.Package() == nil {
+		return f.String()
 	}
 	tn := top.RelString(top.Package().Pkg) // "(*Conn).write"
 	base := top.Name()
